@@ -250,12 +250,16 @@ def _span(ctx, rep, eng):
     # (iv) matches are taken on the normalised, label-stripped text
     cm = ctx.imod("ctparse.ctparse")
     gen = cm.func("ctparse_gen")
-    ok = False
-    for c in calls_in(gen, "_ctparse"):
-        if c.args and isinstance(c.args[0], ast.Call) and e1.callee_name(c.args[0].func) == "_preprocess_string":
-            ok = True
-    rep.add("span", cm.rel + "::ctparse_gen::normalised text reaches _ctparse", cm.where(gen), ok,
-            "" if ok else "_ctparse is no longer called on _preprocess_string(txt)")
+    from . import strterms as st_
+    states = st_.search_input_state(cm, gen)
+    c_ = cm.rel + "::ctparse_gen::normalised text reaches _ctparse"
+    if not states or any(x == "?" for x in states):
+        rep.undecided("span", c_, cm.where(gen), "what text the search is called on is not recognised")
+    else:
+        ok = all(x in ("norm", "stripped", "norm-of-stripped") for x in states)
+        rep.add("span", c_, cm.where(gen), ok,
+                "" if ok else "_ctparse is called on the {} text instead of _preprocess_string(txt)".format(
+                    "/".join(sorted(set(states)))))
     f = cm.func("_ctparse")
     tparam = f.args.args[0].arg
     ok = False
